@@ -584,6 +584,17 @@ def take_is_gather(ck, prog):
             # the element read is addressed by the index VALUE (item.1), the store by the item COUNTER (item.0)
             reads_idx = any(s[0] == "field" and s[2] == "1" for g in gets for s in subterms(g))
             writes_cnt = any(s[0] == "field" and s[2] == "0" for x in a[1:-1] for s in subterms(x))
+            if not gets and en and val[0] == "field" and val[2] == "1":
+                # `index.iter().map(|&idx| self.get(idx)).enumerate()`: the gathered value is produced by the map closure
+                for m in calls_in(en[0][2][0], "Iterator::map"):
+                    if len(m[2]) == 2 and m[2][1][0] == "agg" and m[2][1][1].startswith("closure:") and \
+                            any(x[0] == "arg" and x[1] == 2 for x in subterms(peel(m[2][0]))):
+                        cb = prog.get(m[2][1][1][len("closure:"):])
+                        if cb is not None:
+                            cr = Resolver(cb).local(0)
+                            if cr[0] == "call" and cr[1].endswith(("BaseVector::get", "BaseMatrix::get")) and cr[2] and \
+                                    cr[2][0][0] == "upvar" and any(x[0] == "arg" and x[1] == 2 for x in cr[2][1:]):
+                                ok, reads_idx = True, True
             if not (ok and reads_idx and writes_cnt):
                 problems.append(f"store at {d.where(bb)} is not result[counter] = self[index value]: `{render(val)[:80]}`")
         # every returned value is the gathered buffer: no path hands back self (or a copy of it) un-gathered
